@@ -21,6 +21,10 @@ pub enum Op {
   Mut(Repl),
   /// an observer call
   Obs(u8),
+  /// clone the current object; the clone stays alive next to it and becomes the current object
+  Fork,
+  /// make another live object (index modulo their number) the current one
+  Switch(u8),
 }
 
 #[derive(Clone, Debug, Serialize, Deserialize)]
@@ -61,6 +65,8 @@ fn inner_cfg() -> GenCfg {
 enum AbsOp {
   Mut(AbsRepl),
   Obs(u8),
+  Fork,
+  Switch(u8),
 }
 
 fn strategy() -> BoxedStrategy<Case> {
@@ -82,6 +88,8 @@ fn strategy_with(pool_max: usize, ops_min: usize, ops_max: usize, obs_weight: u3
       prop_oneof![
         6 => abs_repl(cfg).prop_map(AbsOp::Mut),
         2 * obs_weight => (0u8..OBSERVERS.len() as u8).prop_map(AbsOp::Obs),
+        1 => Just(AbsOp::Fork),
+        1 => (0u8..4u8).prop_map(AbsOp::Switch),
       ],
       ops_min..=ops_max,
     ),
@@ -93,6 +101,8 @@ fn strategy_with(pool_max: usize, ops_min: usize, ops_max: usize, obs_weight: u3
         .map(|o| match o {
           AbsOp::Mut(a) => Op::Mut(concretize_repls(&t, &pool, &[a], true).pop().unwrap()),
           AbsOp::Obs(k) => Op::Obs(k),
+          AbsOp::Fork => Op::Fork,
+          AbsOp::Switch(k) => Op::Switch(k),
         })
         .collect();
       Case { inner, ops }
@@ -184,8 +194,9 @@ impl Prop for C05 {
   fn rule(&self) -> String {
     "inner source: tree of depth<=1 over Raw*/Original leaves with 1-4 byte UTF-8 text; history of <=12 ops (second leg: 22-48 ops over <=2 cut points): \
      replace/insert/replace_with_enforce/insert_with_enforce with positions from a pool of <=5 char-boundary cut \
-     points or beyond the end (up to u32::MAX), interleaved with 13 kinds of observer; after every observer the \
-     answer is compared with the splice model and at the end with an unobserved twin. Non-trivial: the history \
+     points or beyond the end (up to u32::MAX), interleaved with 13 kinds of observer and with fork (clone the current object, keep both alive, up to 4) / switch \
+     (continue on another live object); after every observer the \
+     answer is compared with the splice model of the calls that object received, at the end every live object is, and the current one is compared with an unobserved twin. Non-trivial: the history \
      contains mutate,observe,mutate,observe, or two replacements with equal (start,end), or a position beyond \
      the end; distinct by hash of the case JSON".into()
   }
@@ -198,20 +209,39 @@ impl Prop for C05 {
   fn check(&self, case: &Case) -> CheckResult {
     let text = model_text(&case.inner);
     let res = guard(|| -> Result<(), String> {
-      let mut obj = ReplaceSource::new(build(&case.inner));
-      let mut so_far: Vec<Repl> = vec![];
+      // live objects (the first one and its clones), each with the mutating calls it has received
+      let mut objs: Vec<(ReplaceSource<BoxSource>, Vec<Repl>)> = vec![(ReplaceSource::new(build(&case.inner)), vec![])];
+      let mut cur = 0usize;
       for op in &case.ops {
         match op {
           Op::Mut(r) => {
-            apply_repl(&mut obj, r);
-            so_far.push(r.clone());
+            apply_repl(&mut objs[cur].0, r);
+            objs[cur].1.push(r.clone());
           }
           Op::Obs(k) => {
-            let want = splice_text(&text, &so_far);
-            observe(&obj, *k, &want, case, &so_far)?;
+            let want = splice_text(&text, &objs[cur].1);
+            observe(&objs[cur].0, *k, &want, case, &objs[cur].1)?;
           }
+          Op::Fork => {
+            if objs.len() < 4 {
+              let c = (objs[cur].0.clone(), objs[cur].1.clone());
+              objs.push(c);
+              cur = objs.len() - 1;
+            }
+          }
+          Op::Switch(k) => cur = *k as usize % objs.len(),
         }
       }
+      // every live object still answers like the model of its own calls
+      for (i, (o, calls)) in objs.iter().enumerate() {
+        let want = splice_text(&text, calls);
+        let g = o.source().to_string();
+        if g != want {
+          return Err(format!("final source() of live object {i} (of {}): {g:?}, the model of the calls it received gives {want:?}", objs.len()));
+        }
+      }
+      let (obj, so_far) = objs.swap_remove(cur);
+      drop(objs);
       // history independence: an unobserved twin
       let want = splice_text(&text, &so_far);
       let mut twin = ReplaceSource::new(build(&case.inner));
@@ -240,7 +270,7 @@ impl Prop for C05 {
       Ok(Ok(())) => {}
     }
     // non-trivial rule
-    let kinds: Vec<bool> = case.ops.iter().map(|o| matches!(o, Op::Mut(_))).collect();
+    let kinds: Vec<bool> = case.ops.iter().filter(|o| matches!(o, Op::Mut(_) | Op::Obs(_))).map(|o| matches!(o, Op::Mut(_))).collect();
     let mut stage = 0;
     for m in &kinds {
       stage = match (stage, m) {
@@ -264,6 +294,17 @@ impl Prop for C05 {
         .class(enforce_tie, "equal (start,end), different enforce")
         .class(beyond, "position beyond the end")
         .class(muts.len() > 20, "more than 20 replacements")
+        .class(
+          {
+            // a clone made, then a mutation, an observation, a switch and another observation
+            let fork = case.ops.iter().position(|o| matches!(o, Op::Fork));
+            fork.is_some_and(|f| {
+              let rest = &case.ops[f + 1..];
+              rest.iter().any(|o| matches!(o, Op::Mut(_))) && rest.iter().any(|o| matches!(o, Op::Switch(_))) && rest.iter().filter(|o| matches!(o, Op::Obs(_))).count() >= 2
+            })
+          },
+          "live clone diverging from its original, both observed",
+        )
         .class(!text.is_ascii(), "multi-byte text"),
     )
   }
